@@ -3,6 +3,7 @@ package rules
 import (
 	"fmt"
 	"go/ast"
+	"go/constant"
 	"go/token"
 	"go/types"
 	"sort"
@@ -1043,4 +1044,115 @@ func E6MemoSharedState(c *core.Ctx, r *core.Report) {
 	}
 	r.Count("E6.shared-memo-calls", n)
 	r.Floor("E6.shared-memo-calls", 2)
+}
+
+// E6OperatorThroughSetter: a memoised graphics-state operator is only written by its setter.
+func E6OperatorThroughSetter(c *core.Ctx, r *core.Report) {
+	r.Rule("E6.operator-through-setter", "PDF back-end: the page writer remembers the graphics-state parameters it has written (line width, cap, join, dash, opacity, colours, text render mode, …) and its setters skip the operator when the value is unchanged. That is sound only if the setter is the only place that writes the operator: every other function that emits a constant format or string whose last operator is one a memoising setter emits leaves the memo stale, and a later setter call with the remembered value omits an operator that is needed (faux-bold text wrote its stroke width with a bare `%v w`; the next path stroked with the width remembered before the text got the text's width)")
+	p := c.MustPkg("renderers/pdf")
+	info := p.TypesInfo
+	decls := map[*types.Func]*ast.FuncDecl{}
+	for _, fd := range core.AllFuncDecls(p) {
+		if f, ok := info.Defs[fd.Name].(*types.Func); ok {
+			decls[f] = fd
+		}
+	}
+	memo := cachedSetters(p, decls)
+	lastOp := func(s string) string {
+		fs := strings.Fields(s)
+		if len(fs) == 0 {
+			return ""
+		}
+		op := fs[len(fs)-1]
+		for _, ch := range op {
+			if !(ch >= 'a' && ch <= 'z' || ch >= 'A' && ch <= 'Z' || ch == '*') {
+				return ""
+			}
+		}
+		return op
+	}
+	constStrings := func(fd *ast.FuncDecl) map[string]token.Pos {
+		out := map[string]token.Pos{}
+		ast.Inspect(fd.Body, func(m ast.Node) bool {
+			call, ok := m.(*ast.CallExpr)
+			if !ok {
+				return true
+			}
+			name := ""
+			switch f := call.Fun.(type) {
+			case *ast.SelectorExpr:
+				name = f.Sel.Name
+			case *ast.Ident:
+				name = f.Name
+			}
+			if name != "Fprintf" && name != "Write" && name != "WriteString" && name != "write" {
+				return true
+			}
+			for _, a := range call.Args {
+				ast.Inspect(a, func(k ast.Node) bool {
+					if e, ok := k.(ast.Expr); ok {
+						if v := core.ConstVal(info, e); v != nil && v.Kind() == constant.String {
+							if op := lastOp(constant.StringVal(v)); op != "" {
+								out[op] = e.Pos()
+							}
+							return false
+						}
+					}
+					return true
+				})
+			}
+			return true
+		})
+		return out
+	}
+	owner := map[string]string{} // operator -> setter
+	for f := range memo {
+		fd := decls[f]
+		if core.RecvName(fd) != "pdfPageWriter" {
+			continue
+		}
+		for op := range constStrings(fd) {
+			owner[op] = core.FuncName(fd)
+		}
+	}
+	// path-painting and structural operators are not parameters
+	for _, op := range []string{"f", "s", "S", "b", "B", "n", "W", "h", "m", "l", "c", "v", "y", "re", "q", "Q", "cm", "BT", "ET", "Do", "TJ", "Tj", "Td", "Tm", "Tf"} {
+		delete(owner, op)
+	}
+	n := 0
+	var fnames []string
+	byName := map[string]*ast.FuncDecl{}
+	for _, fd := range decls {
+		if fd.Body != nil {
+			fnames = append(fnames, core.FuncName(fd))
+			byName[core.FuncName(fd)] = fd
+		}
+	}
+	sort.Strings(fnames)
+	for _, nm := range fnames {
+		fd := byName[nm]
+		cs := constStrings(fd)
+		var ops []string
+		for op := range cs {
+			ops = append(ops, op)
+		}
+		sort.Strings(ops)
+		for _, op := range ops {
+			own, isParam := owner[op]
+			if !isParam || own == nm {
+				continue
+			}
+			n++
+			r.Fail("E6.operator-through-setter", fmt.Sprintf("pdf.%s|operator %s written outside %s", nm, op, own), c.Pos(cs[op]), fmt.Sprintf("the operator `%s` is written directly although %s remembers its last value: that memo is now stale and a later call with the remembered value omits the operator", op, own))
+		}
+	}
+	var ops []string
+	for op, own := range owner {
+		ops = append(ops, op+"→"+own)
+	}
+	sort.Strings(ops)
+	r.OK("E6.operator-through-setter", "pdf|memoised operators are written by their setters only", c.Pos(p.Syntax[0].Pos()), strings.Join(ops, ", "))
+	r.Count("E6.memoised-operators", len(owner))
+	r.Floor("E6.memoised-operators", 5)
+	_ = n
 }
